@@ -1,5 +1,6 @@
 import Proofs.SegTreeSample
 import Proofs.SegTreeRpow
+import Proofs.SegTreeGenEq
 
 /-!
 # C11 — prioritised replay samples stored items with consistent priorities and weights
@@ -252,6 +253,103 @@ theorem C11_weights_rpow (hpw : ∀ p, 0 < p → 0 < pw p) (hm : 0 < m) (hl : Le
   exact ⟨mn, h1, by simpa using h2, r1, r2⟩
 
 end buffer
+
+/-! ## the same statements about the definitions GENERATED from the source text
+
+`Gen/SegTreeGen.lean` is written by `harness/py2lean_segtree.py` from
+`agilerl/components/segment_tree.py` on every run of the check; `Proofs/SegTreeGenEq.lean` proves
+each generated definition equal to its model counterpart.  The theorems below restate the tree
+theorems directly over the generated definitions (`SegTreeGen.SegmentTree.setitem`, `…operate`,
+`SumSegmentTree.retrieve`, the operation / initial value each subclass passes), so a change of the
+source that alters its meaning breaks them. -/
+section source_translation
+open SegTreeGen
+
+/-- every generated definition equals the hand-written model function, for all inputs and all fuel -/
+theorem C11_source_translation_equalities {α : Type} (op : α → α → α) (d : α) (cap : Nat) (t : List α) :
+    (∀ c, SegmentTree.init c d = if isPow2 c = true then some (initTree c d) else none) ∧
+    (∀ fuel idx t', SegmentTree.setitem_loop0 op d cap fuel t' idx = fixUp op d fuel idx t') ∧
+    (∀ i v, SegmentTree.setitem op d cap t (i + cap) i v = setItem op d cap t i v) ∧
+    (∀ fuel s e node ns ne,
+      SegmentTree.operate_helper op d cap t fuel s e node ns ne = operateAux op d t fuel s e node ns ne) ∧
+    (∀ s e, (s ≤ (if e = 0 then e + cap else e) - 1 ∧ (if e = 0 then e + cap else e) - 1 < cap) →
+      SegmentTree.operate op d cap t (cap + 1) s e = operate op d cap t s e) ∧
+    (∀ i, SegmentTree.getitem op d cap t i = if i < cap then some (nd d t (cap + i)) else none) ∧
+    SumSegmentTree.op = (fun a b : Rat => a + b) ∧ SumSegmentTree.initValue = 0 ∧
+    MinSegmentTree.op = minInf ∧ MinSegmentTree.initValue = none ∧
+    (∀ (o : Rat → Rat → Rat) (ts : List Rat) fuel idx u,
+      SumSegmentTree.retrieve_loop0 o 0 cap ts fuel u idx = retrieveLoop cap ts fuel idx u) ∧
+    (∀ (o : Rat → Rat → Rat) (ts : List Rat) u, 0 < cap →
+      SumSegmentTree.retrieve o 0 cap ts cap u = retrieve cap ts u) :=
+  ⟨gen_init_eq d, gen_setitem_loop_eq op d cap, gen_setitem_eq op d cap t, gen_operate_helper_eq op d cap t,
+    gen_operate_eq op d cap t, gen_getitem_eq op d cap t, gen_sum_op_eq, gen_sum_init_value_eq, gen_min_op_eq,
+    gen_min_init_value_eq, fun o ts => gen_retrieve_loop_eq o cap ts, fun o ts u hc => gen_retrieve_eq o cap hc ts u⟩
+
+/-- **tree invariant over the generated code**: a tree made by the generated `__init__` and then
+    written by any sequence of generated `__setitem__` calls satisfies the node invariant and
+    holds in leaf `i` the last value written to it -/
+theorem C11_source_translation_tree_invariant {α : Type} (op : α → α → α) (d : α) (hd : op d d = d)
+    (c : Nat) (t0 : List α) (h0 : SegmentTree.init c d = some t0) (ws : List (Nat × α))
+    (hw : ∀ w ∈ ws, w.1 < c) :
+    Inv op d c (ws.foldl (fun t w => SegmentTree.setitem op d c t (w.1 + c) w.1 w.2) t0) ∧
+    ∀ i, i < c →
+      (ws.foldl (fun t w => SegmentTree.setitem op d c t (w.1 + c) w.1 w.2) t0).getD (c + i) d
+        = lastWritten d ws i := by
+  have ht0 : t0 = initTree c d := by
+    rw [gen_init_eq] at h0
+    split at h0
+    · exact (Option.some.inj h0).symm
+    · cases h0
+  have hf : (fun (t : List α) (w : Nat × α) => SegmentTree.setitem op d c t (w.1 + c) w.1 w.2) =
+      fun t w => setItem op d c t w.1 w.2 := by
+    funext t w; exact gen_setitem_eq op d c t w.1 w.2
+  rw [hf, ht0]
+  exact C11_tree_invariant op d hd c ws hw
+
+/-- **roots and ranges over the generated code**: `sum()` / `min()` of the generated subclasses
+    (with the operation and initial value they pass to `super().__init__`) return the sum / the
+    minimum of all leaves, and `sum(s, e)` the sum of the leaves `s … e-1` -/
+theorem C11_source_translation_roots (k : Nat) (ts : List Rat) (tm : List (Option Rat))
+    (hs : Inv SumSegmentTree.op SumSegmentTree.initValue (2 ^ k) ts)
+    (hmn : Inv MinSegmentTree.op MinSegmentTree.initValue (2 ^ k) tm) (fuel : Nat) :
+    SumSegmentTree.sum SumSegmentTree.op SumSegmentTree.initValue (2 ^ k) ts (fuel + 1) 0 0
+      = some (∑ j ∈ range (2 ^ k), ts.getD (2 ^ k + j) 0) ∧
+    (∀ s e, s < e → e ≤ 2 ^ k →
+      SumSegmentTree.sum SumSegmentTree.op SumSegmentTree.initValue (2 ^ k) ts (2 ^ k + 1) s e
+        = some (∑ j ∈ range (e - s), ts.getD (2 ^ k + (s + j)) 0)) ∧
+    ∃ r, MinSegmentTree.min MinSegmentTree.op MinSegmentTree.initValue (2 ^ k) tm (fuel + 1) 0 0 = some r ∧
+      (r = none ↔ ∀ j, j < 2 ^ k → tm.getD (2 ^ k + j) none = none) ∧
+      ∀ m, r = some m → (∃ j, j < 2 ^ k ∧ tm.getD (2 ^ k + j) none = some m) ∧
+        ∀ j, j < 2 ^ k → ∀ x, tm.getD (2 ^ k + j) none = some x → m ≤ x := by
+  rw [gen_min_op_eq, gen_min_init_value_eq] at hmn ⊢
+  have hs' : Inv (fun a b : Rat => a + b) 0 (2 ^ k) ts := hs
+  refine ⟨?_, ?_, ?_⟩
+  · rw [gen_sum_eq, gen_operate_full, gen_sum_init_value_eq, C11_sum_is_fold k ts hs']; rfl
+  · intro s e h1 h2
+    have he : e ≠ 0 := by omega
+    rw [gen_sum_eq, gen_operate_eq _ _ _ _ _ _ (by simp only [he, if_false]; omega)]
+    exact (C11_range_sum_min k ts tm hs' hmn s e h1 h2).1
+  · refine ⟨_, by rw [gen_min_eq, gen_operate_full], ?_⟩
+    exact C11_min_is_fold k tm hmn
+
+/-- **retrieve specification over the generated code**: on a sum tree that satisfies the invariant,
+    for `0 ≤ u < total` the generated `retrieve` (assertion included) returns a leaf `i < capacity`
+    with `prefix i ≤ u < prefix i + leaf i`, hence of positive mass -/
+theorem C11_source_translation_retrieve_spec (k : Nat) (t : List Rat)
+    (hinv : Inv SumSegmentTree.op SumSegmentTree.initValue (2 ^ k) t) (u : Rat) (h0 : 0 ≤ u)
+    (h1 : u < t.getD 1 0) :
+    ∃ i, SumSegmentTree.retrieve SumSegmentTree.op SumSegmentTree.initValue (2 ^ k) t (2 ^ k) u = some i ∧
+      i < 2 ^ k ∧
+      (∑ j ∈ range i, t.getD (2 ^ k + j) 0) ≤ u ∧
+      u < (∑ j ∈ range i, t.getD (2 ^ k + j) 0) + t.getD (2 ^ k + i) 0 ∧
+      0 < t.getD (2 ^ k + i) 0 := by
+  have hinv' : Inv (fun a b : Rat => a + b) 0 (2 ^ k) t := hinv
+  obtain ⟨a, b, c, e, f⟩ := C11_retrieve_spec k t hinv' u h0 h1
+  refine ⟨retrieveWalk (2 ^ k) t u, ?_, b, c, e, f⟩
+  rw [gen_sum_init_value_eq, gen_retrieve_eq _ _ (Nat.pos_of_ne_zero (by simp))]
+  exact a
+
+end source_translation
 
 /-! ## boundary of the property (API misuse) and non-vacuity -/
 
